@@ -8,7 +8,9 @@ Enumeration (no sampling inside the stated bounds):
             composite and orthogonal regions and bit units) and orthogonal regions that follow a wide orthogonal sibling
   big       (thorough) a few machines with 150..300 states / 70+ regions
 Each shape is a namespace in a generated translation unit (PACK shapes per TU); harness/c17_meta.hpp compares
-  oracle 1  stateId<>() / regionId<>() / contains<>() of every named state and the published counts with the independent
+  oracle 1  stateId<>() / regionId<>() (/ contains<>() once it can be instantiated, see PROBE_CONTAINS) of every named state and
+            STATE_COUNT REGION_COUNT COMPO_COUNT ORTHO_COUNT ORTHO_UNITS Apex::COMPO_PRONGS Apex::WIDTH TASK_CAPACITY (default)
+            ACTIVE_BITS RESUMABLE_BITS SERIAL_BITS as published by FSM (RF_), FSM::Apex, FSM::Args with the independent
             numbering of gen/structures.py - as run-time comparisons of the compile-time constants, so that a mismatch is
             reported with expected/actual values;
   oracle 2  the registry written by deepRegister() of a constructed instance (stateParents, compoParents, orthoParents,
@@ -16,8 +18,9 @@ Each shape is a namespace in a generated translation unit (PACK shapes per TU); 
             (task pool, serial buffer), and - one variant - the order of structure();
   peers     for a subset the same shape is written twice (S0.. / T0..) and the two machines are compared directly.
 A TU that does not compile (e.g. the library's own static_assert(STATE_ID == HEAD_ID) fires because an index offset is
-wrong) is never an engine error: it is re-built without the instance part (value-level report) and its shapes are
-re-built one by one to attribute "compile/instance" violations to shapes.
+wrong) is never an engine error: its shapes are re-built one per TU (BISECT_BUDGET per variant) to attribute a
+"compile/instance" violation to each offending shape, and whatever does not compile with the instance part is re-built
+without it (-DVT17_NO_INSTANCE) so that identifiers and counts are still compared value by value.
 """
 import json
 import os
@@ -298,18 +301,22 @@ def _probe_contains():
 
 
 def variants(tier):
-    """(name, build kwargs, report?, filter(group, states) -> bool)"""
+    """(name, build kwargs, structure report?, filter(group, states) -> bool). -O0 -s: the TUs are compile-bound and the cache
+    keeps every binary (stripped: ~0.5 MB each)."""
     allf = lambda g, n: True
+    gcc = dict(cxx="g++", std="c++11", opt="-O0", flags=["-s"])
+    clang = dict(cxx="clang++", std="c++17", opt="-O0", flags=["-s", "-DVT17_AUTO"])     # hfsm2::Machine: activated on construction
+    dev = dict(cxx="g++", std="c++14", opt="-O0", flags=["-s"], flavour="dev")           # split sources + structure report
     if tier == "thorough":
         return [
-            ("gcc-c++11", dict(cxx="g++", std="c++11", opt="-O0"), False, allf),
-            ("clang-c++17-auto", dict(cxx="clang++", std="c++17", opt="-O0", flags=["-DVT17_AUTO"]), False, lambda g, n: g != "trees" or n <= 6),
-            ("gcc-dev-c++14-report", dict(cxx="g++", std="c++14", opt="-O0", flavour="dev"), True, lambda g, n: g != "trees" or n <= 5),
+            ("gcc-c++11", gcc, False, allf),
+            ("clang-c++17-auto", clang, False, lambda g, n: g != "trees" or n <= 6),
+            ("gcc-dev-c++14-report", dev, True, lambda g, n: g != "trees" or n <= 6),
         ]
     return [
-        ("gcc-c++11", dict(cxx="g++", std="c++11", opt="-O0"), False, allf),
-        ("clang-c++17-auto", dict(cxx="clang++", std="c++17", opt="-O0", flags=["-DVT17_AUTO"]), False, allf),
-        ("gcc-dev-c++14-report", dict(cxx="g++", std="c++14", opt="-O0", flavour="dev"), True, allf),
+        ("gcc-c++11", gcc, False, allf),
+        ("clang-c++17-auto", clang, False, allf),
+        ("gcc-dev-c++14-report", dev, True, allf),
     ]
 
 
@@ -520,6 +527,9 @@ def run(tier):
         "bounds": "all ordered trees with <= %d states, kinds {C,O} x {headed,headless}, root a region, >= 1 composite-style region; "
                   "strategy relabelling (R/S/U/N) of all trees with <= %d states; widths 1..17 x 25 wide patterns at depth 0..2" % (n_trees, n_strat),
         "contains_instantiable": probe,
+        "variant_scope": {vname: "trees with <= %d states (%d) + %d shapes of the other families" % (
+            max([it["states"] for it in its if it["group"] == "trees"] or [0]), sum(1 for it in its if it["group"] == "trees"),
+            sum(1 for it in its if it["group"] != "trees")) for vname, _, _, its in plan},
         "per_variant": per_variant,
         "build_wall_s": build_s,
         "run_wall_s": run_s,
